@@ -17,6 +17,7 @@
 
 import abc
 import logging
+import threading
 import uuid
 from typing import Dict, List, TYPE_CHECKING
 
@@ -58,6 +59,7 @@ class TracepointConfigService:
         self._last_update = 0
         self._task_handler = None
         self._listeners: List[ConfigUpdateListener] = []
+        self._update_lock = threading.Lock()
 
     def update_no_change(self, ts):
         """
@@ -114,12 +116,17 @@ class TracepointConfigService:
         :param old_config: the old config
         :param new_config: the new config
         """
-        listeners_copy = self._listeners.copy()
-        for listeners in listeners_copy:
-            try:
-                listeners.config_change(ts, old_hash, current_hash, old_config, new_config + self._custom)
-            except Exception:
-                logging.exception("Error updating listener %s", listeners)
+        # update tasks run on a pool of two workers and can complete in any order: every task installs the
+        # state as it is NOW (not the one captured when it was submitted), one task at a time
+        with self._update_lock:
+            current_hash = self._current_hash
+            new_config = self._tracepoint_config
+            listeners_copy = self._listeners.copy()
+            for listeners in listeners_copy:
+                try:
+                    listeners.config_change(ts, old_hash, current_hash, old_config, new_config + self._custom)
+                except Exception:
+                    logging.exception("Error updating listener %s", listeners)
 
     def add_listener(self, listener: ConfigUpdateListener):
         """
